@@ -125,6 +125,21 @@ Theorem C03_prog_events_decompose : forall fx G p fs1 f fs2,
 Proof. exact prog_events_decompose. Qed.
 Print Assumptions C03_prog_events_decompose.
 
+(* T6b  inside a body, what the walker knows changes only through binding statements: any other
+        statement (expression statement, compound assignment, if / while / for / match with their
+        nested scopes, return) hands the scope chain back unchanged, so the events raised for the
+        statements after it are the same as if it were not there *)
+Theorem C03_scopes_only_by_bindings : forall fx G R S s,
+  (forall i k x a e, s <> SAssign i k x a e) -> fst (check_stmt fx G R S s) = S.
+Proof. exact scopes_only_by_bindings. Qed.
+Print Assumptions C03_scopes_only_by_bindings.
+
+Theorem C03_non_binding_no_interference : forall fx G R S s b,
+  (forall i k x a e, s <> SAssign i k x a e) ->
+  check_block fx G R S (BCons s b) = snd (check_stmt fx G R S s) ++ check_block fx G R S b.
+Proof. exact non_binding_no_interference. Qed.
+Print Assumptions C03_non_binding_no_interference.
+
 (* M2  a walker that decides the mutability of `x += e` by a name-keyed, never scoped set of the
        names declared `mut` so far: accepts `def f1(): mut v1 = 1   def f2(v1: int): v1 += 1`
        (ill-typed; the faithful model reports it at the compound assignment) and its verdict on f2
